@@ -116,6 +116,8 @@ def _call(kind, labels):
     symp_call = st.fixed_dictionaries({
         "m": st.just("eq"), "P": gen.poly_strategy(labels[:2], 3, 2, COEF3, min_terms=1), "sym": sym,
         "log_trick": st.just(True), "bounds": st.just("exact"), "symP": st.integers(0, 2),
+        # record-only constraint (lam = 0, documented): the symbol then lives in the recorded constraint alone
+        "lam0": gen.pick((False, 2), (True, 1)),
     })
     calls = [cmp_call] * 6 + [symp_call]
     if kind == "PCBO":
@@ -337,6 +339,8 @@ def _build_constrained(qv, spec, w, numeric_values):
         H += w[MU] * cls(gen.terms_dict(spec["sym_obj"]))
     for c in spec["calls"]:
         m, lam = c["m"], w[c["sym"]]
+        if c.get("lam0"):
+            lam = 0
         if m in RELS:
             terms = [[tuple(k), v] for k, v in c["P"]]
             Pnum = gen.terms_dict(terms)
@@ -489,6 +493,17 @@ def _run_constraints(spec, rec, qv):
         _compare(B, N, exact, "model_after_further_constraint", detail, 0.0)
         _compare_constraints(B, N, exact, detail)
         classes.add("continued_after_subs")
+
+    # 7. "subs leaves the original model unchanged" also when the result is edited afterwards
+    # (the result must not be the original object): B is not needed any more, so edit it
+    def _edit():
+        B[("__probe__",)] = 1
+    lib(_edit, what="edit_result_of_subs")
+    if _snap(A) != before:
+        raise Violation("subs_result_aliases_original",
+                        "editing the result of subs changed the symbolic model; %s" % detail)
+    if any(c.get("lam0") for c in spec["calls"]):
+        classes.add("record_only_constraint_with_symbol")
 
     nontrivial = A.num_ancillas > 0
     if nontrivial:
